@@ -173,8 +173,8 @@ func observe(c *hx.Ctx, text string, extra int) {
 	} else {
 		c.Stat("encode_rejected", 1)
 	}
-	if len(text) < 200 {
-		c.Sample(fmt.Sprintf("%s len=%d enc=%s", text, l, encField))
+	if len(text) < 200 && n%97 == 5 {
+		c.Sample(fmt.Sprintf("%s len=%d enc=%s dirty=%s:%d short=%s wr=%s rt=%s", text, l, encField, dst, dn, sst, wst, rt))
 	}
 }
 
